@@ -36,9 +36,11 @@ Definition add (m : mfs) (e : entry) : mfs * mres rpath :=
           if negb (e_dir pe) || e_link pe then (m, inr EIsNotDir) else
           match m_ents m !! path with
           | Some x =>
-              if e_file e && negb (e_file x) then (m, inr EIsNotFile)
+              (* an existing symlink is neither a file nor a directory unless a symlink is being added *)
+              let other_link := e_link x && negb (e_link e) in
+              if e_file e && (negb (e_file x) || other_link) then (m, inr EIsNotFile)
               else if e_link e && negb (e_link x) then (m, inr EIsNotSymlink)
-              else if e_dir e && negb (e_dir x) then (m, inr EIsNotDir)
+              else if e_dir e && (negb (e_dir x) || other_link) then (m, inr EIsNotDir)
               else (m, inl path)
           | None =>
               let m1 := if negb (e_link e) && e_file e then upd_data m (insert path []) else m in
